@@ -43,7 +43,7 @@ m = {
     'engines': [{
         'name': 'gosym', 'path': '/verif/engine',
         'serves_properties': sorted(claimed),
-        'kind_free_text': 'bounded symbolic interpreter for go/ssa (x/tools v0.29.0) written for this task; path conditions decided by z3 4.8.12 over bit-vectors / IEEE floats; every counterexample and a sample of passing paths are replayed against the natively compiled code',
+        'kind_free_text': 'bounded symbolic interpreter for go/ssa (x/tools v0.29.0) written for this task; path conditions decided by z3 5.1.0 (incremental), z3 4.8.12 and cvc5 1.0 (one-shot) over bit-vectors / IEEE floats; every counterexample and a sample of passing paths are replayed against the natively compiled code',
     }],
     'checks': checks,
     'not_applicable': na,
